@@ -664,6 +664,10 @@ impl Gen {
                 }
             }
         }
+        if self.profile.prop == "C17" && rng.chance(1, 12) {
+            // a limit that cannot bind on the paying side (and can never be met on the receiving side)
+            limit = *rng.pick(&[U::MAX, U::MAX / 2, U::MAX / 1_000_000]);
+        }
         Step::new(&actor, Op::Liquidate { vamm: v, trader, limit })
     }
 
